@@ -291,7 +291,7 @@ def opMop (w : World) (a : Args) : World × String :=
         -- no row: the first map is of a kind the wrappers themselves reject / cannot handle
         (w, if maps.length < 2 then errLine .runtime else errLine .notImpl)
       | some row =>
-        match apiMultiOp row maps with
+        match apiMultiOp row.withSpec maps with
         | .ok m => (w.bind (a.getD "r" "tmp") m, "ok")
         | .error e => (w, errLine e)
 
